@@ -181,6 +181,7 @@ deriving DecidableEq, Repr, Inhabited
     instance `d` for condition `c` -/
 inductive GateEv
   | notFound (i : IId) (k : Name)
+  | found (i : IId) (k : Name) (d : IId)
   | passed (i : IId) (d : IId) (c : Cond)
 deriving DecidableEq, Repr, Inhabited
 
@@ -224,6 +225,19 @@ def Sys.setPc (s : Sys) (t : Tid) (pc : Pc) : Sys :=
 def Sys.emit (s : Sys) (o : Obs) : Sys := { s with obs := s.obs ++ [o] }
 def Sys.spawn (s : Sys) (k : Kind) : Sys := { s with threads := s.threads ++ [{ kind := k }] }
 def Sys.note (s : Sys) (e : GateEv) : Sys := { s with gate := e :: s.gate }
+
+/-- the wake condition of a wait on instance `d` for condition `c` (what `enabledThr` tests) -/
+def latchB (s : Sys) (c : Cond) (d : IId) : Bool :=
+  match c with
+  | .completed | .completedOk => (s.inst d).done
+  | .healthy => (s.inst d).readyDone
+  | .logReady => (s.inst d).logReady != .none
+  | .started => (s.inst d).started || (s.inst d).runCancelled
+
+/-- ghost: instance `i` goes on after its wait on `d` for `c` (recorded when the latch is set, which
+    it is whenever the thread was woken: see `enabledThr`) -/
+def Sys.notePassed (s : Sys) (i d : IId) (c : Cond) : Sys :=
+  if latchB s c d then s.note (.passed i d c) else s
 
 /-! ### pieces of the Go code -/
 
@@ -339,7 +353,7 @@ def doSkip (s : Sys) (t : Tid) (i : IId) : Sys :=
 /-- `getRunningProcess(k)` with the lock available: found → Y dep:lookup, else next dependency -/
 def lookupRunning (s : Sys) (t : Tid) (i : IId) (k : Name) (c : Cond) (rest : List (Name × Cond)) : Sys :=
   match s.running.getD k none with
-  | some d => (s.emit (.dep (s.nameOf i) k true)).setPc t (.depLookup d c rest)
+  | some d => ((s.note (.found i k d)).emit (.dep (s.nameOf i) k true)).setPc t (.depLookup d c rest)
   | none => ((s.note (.notFound i k)).emit (.dep (s.nameOf i) k false)).setPc t (.depNext rest)
 
 /-- process the next dependency (or finish the phase) -/
@@ -349,7 +363,7 @@ def depStep (s : Sys) (t : Tid) (i : IId) (h : Hints) (rest : List (Name × Cond
   | some ((k, c), rest') =>
     let s := s.emit (.deptry (s.nameOf i) k)
     match s.doneM.getD k none with
-    | some d => (s.emit (.dep (s.nameOf i) k true)).setPc t (.depLookup d c rest')
+    | some d => ((s.note (.found i k d)).emit (.dep (s.nameOf i) k true)).setPc t (.depLookup d c rest')
     | none => if lockFree s t then lookupRunning s t i k c rest' else s.setPc t (.lockDep k c rest')
 
 /-- leave the goroutine body: the deferred `wg.Done()` runs before `removeRunningProcess` -/
@@ -484,13 +498,13 @@ def armDepLookup (s : Sys) (t : Tid) (d : IId) (c : Cond) (rest : List (Name × 
 /-- woken from `waitForCompletion(d)`: a non-zero exit code under `process_completed_successfully` skips -/
 def armWaitDone (s : Sys) (t : Tid) (i d : IId) (ok : Bool) (rest : List (Name × Cond)) : Sys :=
   if ok ∧ (s.ps (s.nameOf d)).exit ≠ 0 then doSkip s t i
-  else (s.note (.passed i d (if ok then .completedOk else .completed))).setPc t (.depNext rest)
+  else (s.notePassed i d (if ok then .completedOk else .completed)).setPc t (.depNext rest)
 
 def armWaitReady (s : Sys) (t : Tid) (i d : IId) (rest : List (Name × Cond)) : Sys :=
-  if (s.ps (s.nameOf d)).health = .ready then (s.note (.passed i d .healthy)).setPc t (.depNext rest) else doSkip s t i
+  if (s.ps (s.nameOf d)).health = .ready then (s.notePassed i d .healthy).setPc t (.depNext rest) else doSkip s t i
 
 def armWaitLogReady (s : Sys) (t : Tid) (i d : IId) (rest : List (Name × Cond)) : Sys :=
-  if (s.inst d).logReady = .ok then (s.note (.passed i d .logReady)).setPc t (.depNext rest) else doSkip s t i
+  if (s.inst d).logReady = .ok then (s.notePassed i d .logReady).setPc t (.depNext rest) else doSkip s t i
 
 def armProcSkipped (s : Sys) (t : Tid) (i : IId) : Sys :=
   if (s.icfg i).exitOnSkipped then (recordExit s 1).setPc t (.sdEnter .procSkip) else gotoCleanup s t
@@ -554,7 +568,7 @@ def stepProc (s : Sys) (t : Tid) (i : IId) (h : Hints) : Pc → Sys
   | .waitDone d ok rest => armWaitDone s t i d ok rest
   | .waitReady d rest => armWaitReady s t i d rest
   | .waitLogReady d rest => armWaitLogReady s t i d rest
-  | .waitStarted d rest => (s.note (.passed i d .started)).setPc t (.depNext rest)
+  | .waitStarted d rest => (s.notePassed i d .started).setPc t (.depNext rest)
   | .procSkipped => armProcSkipped s t i
   | .runEnter => armRunEnter s t i
   | .runChecked => armRunChecked s t i
